@@ -27,15 +27,20 @@ TOLERANCES = {"pow2": "bit-identical", "decimal": 1e-9, "medium": 1e-9,
 TIMEOUT = 600
 
 H.ST["auto-ms2"] = (H.ST["ms2"][0], "auto")
+H.ST["tm-spheroid-abs"] = (("spheroid", 1.59 + 0.05j, (0.3, 0.6),
+                            (0.0, 0.4, 0.7), H.C0), ("Tmatrix", (), {}))
+H.ST["tm-cylinder-abs"] = (("cylinder", 1.5 + 0.1j, 0.8, 0.6,
+                            (0.0, 0.4, 0.7), H.C0), ("Tmatrix", (), {}))
 H.ST["auto-far"] = (("spheres", [(1.59, 0.5, (0.2, 0.1, 5.0)),
                                  (1.45, 0.3, (20.0, 4.0, 7.0))]), "auto")
 STS = {"quick": ["mie", "layered", "ms2", "tm-spheroid", "tm-cylinder",
                  "mielens", "abmielens", "lens-mie", "mie2", "auto-ms2",
-                 "auto-far"],
+                 "auto-far", "tm-spheroid-abs"],
        "thorough": ["mie", "mie-far", "mie-abs", "layered", "mie2", "ms1",
                     "ms2", "tm-sphere", "tm-spheroid", "tm-cylinder",
                     "mielens", "abmielens", "mielens2", "lens-mie",
-                    "auto-ms2", "auto-far", "auto"]}
+                    "auto-ms2", "auto-far", "auto", "tm-spheroid-abs",
+                    "tm-cylinder-abs"]}
 SCALES = {"quick": [2.0 ** -13, 2.0 ** 7, 1e-3, 1e4, 1e9],
           "thorough": [2.0 ** -13, 2.0 ** -7, 2.0 ** 7, 2.0 ** 13, 2.0 ** 30,
                        1e-6, 1e-4, 1e-3, 1e3, 1e4, 1e9]}
@@ -53,6 +58,11 @@ def cases(tier, seed):
                             "kind": "scale", "st": st, "s": s, "det": dk,
                             "ms_xsec": (st, s) in MS_XSEC[tier] and
                             dk == DETK[0]})
+        if st in ("mie", "mie2", "ms2", "tm-spheroid", "layered"):
+            # all lengths written as whole numbers (e.g. nanometres) in
+            # Python ints / integer arrays instead of floats
+            out.append({"id": "intunits:%s" % st, "kind": "intunits",
+                        "st": st, "ms_xsec": False})
         for nm in NMEDS:
             out.append({"id": "medium:%s:n_m=%r" % (st, nm), "kind": "medium",
                         "st": st, "nm": nm, "ms_xsec":
@@ -155,9 +165,60 @@ def _compare(ck, case_desc, base, got, pow2, s, tol):
     return fps
 
 
+def _intify(spec):
+    """the same scatterer with every length x1000 as Python ints"""
+    def I(v):
+        if isinstance(v, (list, tuple)):
+            return type(v)(I(x) for x in v)
+        return int(round(v * 1000))
+    k = spec[0]
+    if k == "sphere":
+        return (k, spec[1], I(spec[2]), I(spec[3]))
+    if k == "spheres":
+        return (k, [(n, I(r), I(c)) for n, r, c in spec[1]])
+    if k == "spheroid":
+        return (k, spec[1], I(spec[2]), spec[3], I(spec[4]))
+    raise ValueError(k)
+
+
+def _run_intunits(case, ck):
+    import holopy as hp
+    from holopy.scattering import calc_holo, calc_field
+    st = case["st"]
+    sspec, tspec = H.ST[st]
+    pol = _pol_for(st)
+    fps = []
+    for form in ("int", "intarray"):
+        ispec = _intify(sspec)
+        scat_i = H.mk_scatterer(ispec)
+        if form == "intarray" and ispec[0] == "spheres":
+            from holopy.scattering import Sphere, Spheres
+            scat_i = Spheres([Sphere(n=n, r=r, center=np.array(c))
+                              for n, r, c in ispec[1]])
+        scat_f = H.mk_scatterer(sspec, 1000.0)
+        det_i = hp.detector_grid((4, 5), (100, 130))
+        det_f = H.det_grid((4, 5), (0.1, 0.13), scale=1000.0)
+        for fn in (calc_holo, calc_field):
+            a = fn(det_i, scat_i, H.NMED, 660, pol,
+                   theory=H.mk_theory(tspec)).values
+            b = fn(det_f, scat_f, H.NMED, 660.0, pol,
+                   theory=H.mk_theory(tspec)).values
+            ck.trans += 2
+            e = float(np.abs(a - b).max() / np.abs(b).max())
+            ck.metric("int-vs-float", e)
+            ck.true("integer-valued-lengths", e <= 1e-9,
+                    "%s: lengths written as integers (%s) give a result "
+                    "that differs by %.2e from the same lengths written as "
+                    "floats" % (st, form, e))
+            fps.append(fp_values(a))
+    return digest(*fps)
+
+
 def run_case(case):
     ck = Checker()
     st = case["st"]
+    if case["kind"] == "intunits":
+        return ck.result(fp=_run_intunits(case, ck))
     if case["kind"] == "scale":
         s = case["s"]
         base = _quantities(st, 1.0, case["det"], ms_xsec=case["ms_xsec"])
